@@ -21,7 +21,6 @@ const (
 const (
 	SigUnknownTypeStall   = "c42.unknown_type_response_stalls_stream"
 	SigFallbackNonActive  = "c44.fallback_on_nonactive_server_failure"
-	SigOrphanAfterRevert  = "c44.resource_unsubscribed_everywhere_after_revert"
 	reconnectSleep        = 150 * time.Second // > max stream backoff (120s * 1.2)
 	DefaultExpiry         = 20 * time.Minute
 	maxNames              = 4
@@ -77,6 +76,7 @@ type Stats struct {
 	StreamFailNoMsg   int
 	StreamFailAfter   int
 	DupNack           int
+	GrayNoRevert      int
 	Applied           int
 	Skipped           int
 }
@@ -461,7 +461,12 @@ func decodeSpecs(res []ResSpec) (items []decoded, nack bool) {
 }
 
 // respond models a response of registered type t on server i.
-func (m *model) respond(i, t int, version, nonce string, res []ResSpec) {
+//
+// observedClose reports whether the client released a channel in this op: a
+// response from a higher-priority server that carries no valid resource at
+// all (empty, or everything rejected) is a gray zone for "delivers an update"
+// - the client may or may not revert on it.
+func (m *model) respond(i, t int, version, nonce string, res []ResSpec, observedClose bool) {
 	s := m.srv[i]
 	s.gotMsg = true
 	items, nack := decodeSpecs(res)
@@ -483,6 +488,18 @@ func (m *model) respond(i, t int, version, nonce string, res []ResSpec) {
 	// authority
 	if m.active < 0 || i > m.active {
 		return
+	}
+	if i < m.active {
+		definite := false
+		for _, it := range items {
+			if !it.bad {
+				definite = true
+			}
+		}
+		if !definite && !observedClose {
+			m.st.GrayNoRevert++
+			return
+		}
 	}
 	m.revertTo(i)
 	inResp := map[string]bool{}
@@ -801,6 +818,7 @@ func (e *exec) run() {
 	flag(st.StreamFailNoMsg > 0, "stream_fail_before_msg")
 	flag(st.StreamFailAfter > 0, "stream_fail_after_msg")
 	flag(st.DupNack > 0, "duplicate_nack")
+	flag(st.GrayNoRevert > 0, "gray_response_without_revert")
 	flag(p.Servers > 1, fmt.Sprintf("servers_%d", p.Servers))
 	flag(st.Skipped > st.Applied, "mostly_skipped_ops")
 }
@@ -888,7 +906,7 @@ func (e *exec) step(op Op) bool {
 		} else {
 			tr.Cur().Push(MarshalResponse(Types[t].URL, version, nonce, op.Res))
 			rig.Settle()
-			m.respond(i, t, version, nonce, op.Res)
+			m.respond(i, t, version, nonce, op.Res, e.closedSince(h0))
 		}
 	case "break":
 		cands := e.servers(func(i int) bool { return m.srv[i].conn == cUp && !m.srv[i].broken })
@@ -1005,6 +1023,18 @@ func (e *exec) builtSince(h0 int) int {
 		}
 	}
 	return b
+}
+
+// closedSince reports whether a transport was closed since the snapshot.
+func (e *exec) closedSince(h0 int) bool {
+	r, c, _ := e.rig.Snapshot()
+	_, _, ch := e.rig.Since(r, c, h0)
+	for _, x := range ch {
+		if x.Kind == "close" {
+			return true
+		}
+	}
+	return false
 }
 
 func sameSet(a, b []string) bool {
@@ -1237,12 +1267,16 @@ func (e *exec) verify(r0, c0, h0 int) bool {
 		}
 	}
 
-	// ---- A71 sanity: every watched resource is subscribed on the active server
+	// ---- statistic: is every watched resource subscribed on the active server?
 	if m.active >= 0 {
 		for t := 0; t < 2; t++ {
 			for _, name := range sortedKeys(m.res[t]) {
 				if _, ok := m.srv[m.active].types[t].subs[name]; !ok && !m.res[t][name].opt[m.active] {
-					m.known[SigOrphanAfterRevert] = fmt.Sprintf("resource %s/%s is watched but not subscribed on the active server %d (nor, after the revert, on any other)", Types[t].Name, name, m.active)
+					// Observation beyond the C44 statement (not asserted): a
+					// resource first watched while on a fallback server is
+					// requested from that server only; after the revert it is
+					// requested from no server at all. See notes/C44.md.
+					e.class("OBS_watched_resource_requested_from_no_server_after_revert")
 				}
 			}
 		}
